@@ -27,7 +27,7 @@ ASSUMPTIONS = [
 ]
 REQUIRED = {'mirror_checks': 8000, 'source_updates': 2000, 'overrides': 300, 'relinks': 300, 'nested_links': 200, 'leak_checks': 3000, 'triggers': 100,
             'same_reference_reassigned': 20, 'overrides_from_trigger_callback': 50, 'equal_comparing_source_cases': 40,
-            'targets_sharing_parameter_objects': 40, 'assignments_from_on_init_method': 100}
+            'targets_sharing_parameter_objects': 40, 'assignments_from_on_init_method': 100, 'arraylike_source_values': 100}
 
 _st = {}
 _n = [0]
@@ -41,6 +41,7 @@ def setup(P):
         v = param.Number(default=1.0)
         w = param.Number(default=2.0)
         op = param.Callable(default=operator.add)
+        o = param.Parameter(default=None)       # holds array-like objects (Vec)
 
     class Tgt(param.Parameterized):
         x = param.Number(default=0.0, bounds=(0, 100), allow_refs=True)
@@ -91,6 +92,21 @@ def fresh():
     return float(_n[0] % 90) + 0.25
 
 
+class Vec:
+    """An array-like value: comparison is element-wise and returns a (truthy) list, as numpy arrays / data frames do."""
+    def __init__(self, *items):
+        self.items = list(items)
+
+    def __eq__(self, other):
+        other = other.items if isinstance(other, Vec) else [other] * len(self.items)
+        return [a == b for a, b in zip(self.items, other)]
+
+    __hash__ = None
+
+    def __repr__(self):
+        return f'Vec{tuple(self.items)}'
+
+
 def make_ref(rng, srcs, tparam):
     """-> (reference object, evaluator closure, kind, set of (src index, pname) it depends on)"""
     param = _st['param']
@@ -109,6 +125,9 @@ def make_ref(rng, srcs, tparam):
         if rng.random() < 0.5:
             return {'k': inner, 'c': 3}, (lambda: {'k': ev(), 'c': 3}), f'dict[{kind}]', deps
         return {'k': (inner, inner2)}, (lambda: {'k': (ev(), ev2())}), f'dict[({kind},{kind2})]', deps | deps2
+    if tparam == 'z' and rng.random() < 0.12:
+        # the referenced parameter holds array-like objects
+        return s.param.o, (lambda: s.o), 'param-arraylike', {(i, 'o')}
     c = rng.randrange(11)
     if c == 10:
         # the bound callable is itself a Parameter (a function-valued parameter of the source)
@@ -260,6 +279,8 @@ def run_case(idx, rng, P, rep):
         rep.violation(f'C08/{key}', msg, case=dict(desc, steps=steps), trace=trace[-16:])
 
     def same(a, b):
+        if isinstance(a, Vec) or isinstance(b, Vec):
+            return a is b
         return a == b and type(a) is type(b) or (isinstance(a, (int, float)) and isinstance(b, (int, float)) and a == b)
 
     def verify(where):
@@ -321,11 +342,14 @@ def run_case(idx, rng, P, rep):
             v = rng.choice([fresh(), fresh(), fresh(), -5.0, 500.0, 0.0])
             if rng.random() < 0.1:
                 pn, v = 'op', rng.choice([operator.add, operator.mul, operator.sub])
+            elif rng.random() < 0.12:
+                pn, v = 'o', Vec(fresh(), fresh())
+                rep.count('arraylike_source_values')
             steps.append('source-update')
             trace.append(('source-update', si, pn, v))
             rep.count('source_updates')
             try:
-                unchanged = getattr(srcs[si], pn) == v
+                unchanged = (getattr(srcs[si], pn) is v) if isinstance(v, Vec) else getattr(srcs[si], pn) == v
                 n_deliv = len(deliveries)
                 setattr(srcs[si], pn, v)
                 # one source assignment reaches each linked parameter at most once
